@@ -105,6 +105,9 @@ func c14RunHandler(steps []c14Step, w http.ResponseWriter) {
 	}
 }
 
+// what the same middleware instance served immediately before the exchange under test
+var c14Priors = []string{"none", "invalid-response-with-body", "valid-response", "invalid-request"}
+
 func init() {
 	var router routers.Router
 	routersBy := map[string]routers.Router{}
@@ -136,7 +139,7 @@ func init() {
 	core.Register(&core.Check{
 		ID: "C14",
 		Rule: "handler behaviours: every sequence of up to 4 (thorough 6) calls from {WriteHeader(200|201|500), Write(first half), Write(second half), Flush}, optionally preceded by Header().Set(Content-Type) x request class {no route, routable but invalid, valid} x strict x custom/default error callback x custom/default log callback x client writer with/without Flusher; " +
-			"also the older ValidationHandler (request gate). The client writer is harness code mirroring net/http. The same handler run against a plain recorder defines the intended response; the spec makes response validity a one-line predicate. Abstract states: (handler invoked, error callback calls, client status, client body). non-trivial = the request is routable",
+			"x what the same middleware instance served just before {nothing, a response that failed validation and carried a body, a valid response, an invalid request}; also the older ValidationHandler (request gate). The client writer is harness code mirroring net/http. The same handler run against a plain recorder defines the intended response; the spec makes response validity a one-line predicate. Abstract states: (handler invoked, error callback calls, client status, client body). non-trivial = the request is routable",
 		Assumptions: []string{
 			"client writer mirrors net/http: first status wins, Write implies 200, invalid status codes panic",
 			"intended response = the handler sequence run against the harness writer directly; in strict mode equality is on (status, concatenated body)",
@@ -164,6 +167,11 @@ func init() {
 				customErr, customLog = x.Bool(), x.Bool()
 			}
 			flusher = x.Bool()
+			// history: what the same middleware instance served just before this exchange
+			prior := "none"
+			if subject == "Validator.Middleware" {
+				prior = explore.Pick(x, c14Priors)
+			}
 			var steps []c14Step
 			if x.Bool() {
 				steps = append(steps, stSetCT)
@@ -180,6 +188,9 @@ func init() {
 				names = append(names, c14StepNames[s])
 			}
 			sig := fmt.Sprintf("%s document=%s request=%s strict=%v customErr=%v customLog=%v clientFlusher=%v handler=[%s]", subject, variant, reqClass, strict, customErr, customLog, flusher, strings.Join(names, "; "))
+			if prior != "none" {
+				sig += " after=" + prior
+			}
 			target := map[string]string{"valid": "http://h.example/r?q=1", "invalid": "http://h.example/r?q=zz", "no-route": "http://h.example/nope"}[reqClass]
 			var reqBody string
 			reqHeader := http.Header{}
@@ -226,7 +237,20 @@ func init() {
 			invoked := 0
 			var errCalls []string
 			logCalls := 0
+			inPrior := false
 			h := http.HandlerFunc(func(hw http.ResponseWriter, _ *http.Request) {
+				if inPrior {
+					switch prior {
+					case "invalid-response-with-body":
+						hw.Header().Set("Content-Type", "text/plain")
+						hw.WriteHeader(200)
+						hw.Write([]byte(`{"ok":true,"PRIOR":"SECRET"}`))
+					case "valid-response":
+						hw.Header().Set("Content-Type", "application/json")
+						hw.Write([]byte(`{"ok":true}`))
+					}
+					return
+				}
 				invoked++
 				c14RunHandler(steps, hw)
 			})
@@ -269,6 +293,28 @@ func init() {
 				r.Sample(x, map[string]any{"case": sig, "intended_status": intended.status, "intended_body": string(intended.body)})
 			}
 			detail := map[string]any{"case": sig, "intended_status": intended.status, "intended_body": string(intended.body), "intended_valid": intendedValid}
+			if prior != "none" {
+				// the earlier exchange, through the same instance, to another client
+				ptarget := "http://h.example/r?q=1"
+				if prior == "invalid-request" {
+					ptarget = "http://h.example/r?q=zz"
+				}
+				preq := httptest.NewRequest("GET", ptarget, nil)
+				if variant == "request-body" {
+					preq = httptest.NewRequest("GET", ptarget, strings.NewReader(`{"n":1}`))
+					preq.Header.Set("Content-Type", "application/json")
+				}
+				if variant == "document-security" {
+					preq.Header.Set("X-Auth", "ok")
+				}
+				inPrior = true
+				if !r.Guard(x, "ServeHTTP(earlier exchange)", detail, func() { served.ServeHTTP(&clientWriter{hdr: http.Header{}}, preq) }) {
+					r.Outcome("panic")
+					return
+				}
+				inPrior = false
+				errCalls, logCalls = nil, 0
+			}
 			r.Exec(0)
 			if !r.Guard(x, "ServeHTTP", detail, func() { served.ServeHTTP(w, req) }) {
 				r.Outcome("panic")
@@ -280,6 +326,10 @@ func init() {
 				d["client_status"], d["client_body"], d["client_calls"] = client.status, string(client.body), client.calls
 				d["handler_invocations"], d["error_callback_calls"] = invoked, errCalls
 				r.Fail(x, clause, sig, d)
+			}
+			if strings.Contains(string(client.body), "PRIOR") {
+				fail("bytes-of-an-earlier-exchange-reach-this-client")
+				return
 			}
 			shouldInvoke := reqClass == "valid"
 			if (invoked == 1) != shouldInvoke || invoked > 1 {
